@@ -394,6 +394,15 @@ func explain(m *MRepo, o *obs, extra *MRepo, k Knobs) []string {
 					diffs = append(diffs, fmt.Sprintf("manifest %s must be served, answers %s", d, val))
 				}
 			case !ok && !m.isChildOfPresent(d) && !m.ghosts[d]:
+				stale := false
+				for _, set := range m.staleRef {
+					stale = stale || set[d]
+				}
+				if stale {
+					// known family [artifact deleted after its blob]: a referrers response still lists it, so it is served
+					// by digest again as soon as its blob is back (the interrupted request is a re-push of it)
+					continue
+				}
 				if served {
 					diffs = append(diffs, fmt.Sprintf("manifest %s must be absent, answers %s", d, val))
 				}
